@@ -12,6 +12,7 @@ import TypedPathVerif.Spec.StdBuf
 import TypedPathVerif.Spec.HashSpec
 import TypedPathVerif.Spec.Utf8
 import TypedPathVerif.Spec.Lossy
+import TypedPathVerif.Spec.Chars
 import TypedPathVerif.Model.Comb.Windows
 
 open TP
@@ -284,6 +285,19 @@ def step (line : String) : String :=
     match parseHex h with
     | some b => showBool (Utf8.validB b)
     | none => badOp
+  | ["u8dot", e, h] =>
+    -- file_stem / extension of the UTF-8 family, computed over CHARACTERS (Spec/Chars.lean); asked only for
+    -- valid UTF-8, where the harness answers with Utf8Path::file_stem / extension
+    match parseEnc e, parseHex h with
+    | some e, some b =>
+      let r := Utf8.u8StemExt e b
+      s!"stem={showOptBytes r.1} ext={showOptBytes r.2}"
+    | _, _ => badOp
+  | ["u8valid", e, h] =>
+    -- Utf8Path::is_valid over characters and the regenerated `char` tables
+    match parseEnc e, parseHex h with
+    | some e, some b => showBool (Utf8.u8IsValid e b)
+    | _, _ => badOp
   | ["lossy", h] =>
     -- `to_str` and the lossy / Display text (Spec/Lossy.lean); the harness answers with the crate's
     -- `Path::to_str`, `to_string_lossy` and `display()` and checks them against real std
